@@ -73,7 +73,17 @@ def gen_prog_tl(seed, tier):
     orders = [["insertion", 0], ["reverse", 0], ["seeded", fl.randrange(1 << 32)], ["hash", 0]]
     if tier == "quick":
         orders = [orders[2], orders[fl.choice([0, 1, 3])]]
-    return {"kind": "prog_tl", "prog": prog, "clocks": clocks, "steps": steps, "orders": orders,
+    rst_proc = None
+    adoms = [d for d in prog["domains"] if d["async_reset"] and not d["reset_less"]]
+    if adoms and fl.random() < 0.4:
+        # a user process asserts an asynchronous reset exactly at a clock-toggle instant (same delta cycle as the clock
+        # process): resettable registers end at their initial value, reset-less ones take their edge, in either order
+        d = fl.choice(adoms)
+        c = clocks[d["name"]]
+        half = c["period"] // 2
+        ph = c["phase"] if c["phase"] is not None else half
+        rst_proc = {"dom": d["name"], "at": ph + fl.randint(1, 8) * half}
+    return {"kind": "prog_tl", "rst_proc": rst_proc, "prog": prog, "clocks": clocks, "steps": steps, "orders": orders,
             "add_order": fl.choice([0, fl.randrange(1, 1 << 30)])}
 
 
@@ -663,6 +673,12 @@ def run_prog_tl(case):
                 kw = {"phase": Period(fs=c["phase"])} if c["phase"] is not None else {}
                 sim.add_clock(Period(fs=c["period"]), domain=cds[d["name"]], **kw)
             ref = Ref(prog)
+            rp = case.get("rst_proc")
+            if rp:
+                async def reset_process(ctx):
+                    await ctx.delay(Period(fs=rp["at"]))
+                    ctx.set(cds[rp["dom"]].rst, 1)
+                sim.add_process(reset_process)
 
             def compare(ctx, idx, t_expected):
                 t = ctx.elapsed_time().femtoseconds
@@ -705,8 +721,12 @@ def run_prog_tl(case):
                             P["coincident_domains"] += 1
                             F["tie"] += 1
                         stats["edges"] += len(tog)
-                        if active:
-                            ref.edge(active)
+                        rch = {}
+                        if rp and now == rp["at"] and not ref.rst[rp["dom"]]:
+                            rch[rp["dom"]] = 1
+                            P["process_reset_at_edge_instant"] = P.get("process_reset_at_edge_instant", 0) + 1
+                        if active or rch:
+                            ref.instant(active, rch)
                         for n, lvl in tog.items():
                             ref.set_clock(n, lvl)
                     stats["steps"] += 1
